@@ -597,6 +597,7 @@ theorem piInner_good (t : Bytes) : ∀ (f : Nat) (sp p : Pos), PosOK t sp → Po
       simp only
       obtain ⟨hk, hstop, hbefore⟩ := idxOf_some hidx
       simp at hk
+      rw [getD_drop] at hstop
       have he : PosOK t ⟨p.line, p.pos + k, p.ls⟩ := by
         refine hp.adv k (by omega) ?_
         intro j hj
@@ -613,13 +614,22 @@ theorem piInner_good (t : Bytes) : ∀ (f : Nat) (sp p : Pos), PosOK t sp → Po
           rw [if_pos hd62]
           exact he1.adv1 hlt2 (by rw [hd62]; decide) (by rw [hd62]; decide)
         · rw [if_neg hd62]
-          refine (skipSpace_good t _ he1).bind ?_
-          intro q ⟨hq, _⟩
-          exact ih sp q.1 hsp hq
-      · rw [if_neg h63]
-        refine (skipSpace_good t _ he).bind ?_
-        intro q ⟨hq, _⟩
-        exact ih sp q.1 hsp hq
+          exact ih sp _ hsp he1
+      rw [if_neg h63]
+      by_cases h13 : t.getD (p.pos + k) 0 = 13
+      · rw [if_pos h13, peek_eq (show p.pos + k + 1 ≤ t.length by omega)]; simp only [Res.ok_bind]
+        by_cases hd10 : t.getD (p.pos + k + 1) 0 = 10
+        · have hlt2 : p.pos + k + 1 < t.length := getD_ne_zero_lt (by rw [hd10]; decide)
+          simp only [hd10, if_true]
+          exact ih sp _ hsp (he.crlf hlt2 h13 hd10)
+        · simp only [hd10, if_false]
+          exact ih sp _ hsp (he.cr hlt h13 hd10)
+      rw [if_neg h13]
+      have h10 : t.getD (p.pos + k) 0 = 10 := by
+        rcases piStop_cases hstop h63 with h | h
+        · exact absurd h h13
+        · exact h
+      exact ih sp _ hsp (he.lf hlt h10)
 
 theorem piLoop_good (t : Bytes) : ∀ (f : Nat) (p : Pos), PosOK t p → (piLoop t f p).Good t (PosOK t) := by
   intro f
